@@ -23,10 +23,14 @@ type c11Case struct {
 	Pipeline bool `json:"pipeline,omitempty"`
 	// Metrics: the Subscriber is built with WithSubscriberMetrics (the case is its first message)
 	Metrics bool `json:"metrics,omitempty"`
+	// Before: payload kind of an earlier message validated by the same Subscriber (same verifier)
+	Before string `json:"before,omitempty"`
+	// Merge: the header type decodes straight into its receiver (json.Unmarshal(b, h) idiom)
+	Merge bool `json:"merge,omitempty"`
 }
 
 var c11Payloads = []string{"valid", "trailing-bytes", "fails-validate", "wrong-json-type", "truncated", "empty", "random-bytes", "unknown-field",
-	"validatordata-ok", "validatordata-fails-validate", "validatordata-wrong-type", "unmarshal-panics"}
+	"validatordata-ok", "validatordata-fails-validate", "validatordata-wrong-type", "unmarshal-panics", "sparse"}
 var c11Verifiers = []string{"nil", "bare-soft", "bare-hard", "wrapped-soft", "wrapped-hard", "joined-soft", "plain-error", "panic", "never-set", "set-later-nil", "set-later-hard"}
 
 var errPlain = errors.New("plain verifier error")
@@ -88,6 +92,12 @@ func c11Message(kind string) (msg *pubsub.Message, decodes bool, want *vk.H) {
 		msg.ValidatorData = "not a header"
 	case "unmarshal-panics":
 		msg.Data = []byte("BOOM")
+	case "sparse":
+		// decodes and validates; most fields are absent, so the header is what a fresh receiver gives
+		msg.Data = []byte(`{"c":"vk","h":7}`)
+		w := &vk.H{}
+		_ = w.UnmarshalBinary(msg.Data)
+		return msg, true, w
 	}
 	return msg, false, nil
 }
@@ -97,6 +107,14 @@ func c11Exec(t *testing.T, run *vk.Run, c c11Case) {
 	feat := fmt.Sprintf("payload=%s,verifier=%s", c.Payload, c.Verifier)
 	if c.Metrics {
 		feat += ",metrics"
+	}
+	if c.Before != "" {
+		feat += ",after=" + c.Before
+	}
+	if c.Merge {
+		feat += ",merge-decode"
+		vk.MergeDecode.Store(true)
+		defer vk.MergeDecode.Store(false)
 	}
 	viol := func(clause, format string, a ...any) {
 		run.Violate("C11/"+clause+"/"+feat, c, "%s: %s", feat, fmt.Sprintf(format, a...))
@@ -126,6 +144,25 @@ func c11Exec(t *testing.T, run *vk.Run, c c11Case) {
 			if err := sub.SetVerifier(verifier); err != nil {
 				run.HarnessError("SetVerifier: %v", err)
 			}
+		}
+		if c.Before != "" {
+			// an earlier message through the same Subscriber; whatever its verdict, the statement
+			// about the next message does not depend on it
+			pm, _, _ := c11Message(c.Before)
+			pctx, pcancel := context.WithTimeout(context.Background(), 10*time.Second)
+			prev := vk.Spawn(func() (pubsub.ValidationResult, error) {
+				return sub.VerifValidate(pctx, "", pm), nil
+			})
+			vk.Settle()
+			for i := 0; i < 15 && !prev.Done(); i++ {
+				vk.Advance(time.Second)
+			}
+			pcancel()
+			if !prev.Done() {
+				viol("hang", "validator did not return for the earlier message")
+				return
+			}
+			calls, seen = 0, nil
 		}
 		msg, decodes, want := c11Message(c.Payload)
 		ctx, cancel := context.WithTimeout(context.Background(), 10*time.Second)
@@ -197,7 +234,7 @@ func c11Exec(t *testing.T, run *vk.Run, c c11Case) {
 func TestC11(t *testing.T) {
 	run := vk.NewRun("C11", "model_checking")
 	defer run.Finish()
-	run.SetRule("the Subscriber's real topic validator (exported under the verif tag) is run on every payload in {valid, trailing bytes, fails Validate, wrong JSON type, truncated, empty, random bytes, unknown field, local ValidatorData ok / failing Validate / wrong type, UnmarshalBinary panics} x every verifier outcome in {nil, bare/wrapped/joined soft, bare/wrapped hard, plain error, panic, never set (context expiry), set later returning nil / hard} x {metrics off, metrics on (first message of a fresh Subscriber)}; plus the same classes published through real gossipsub between mocknet hosts; distinct = (payload, verifier, verdict)")
+	run.SetRule("the Subscriber's real topic validator (exported under the verif tag) is run on every payload in {valid, trailing bytes, fails Validate, wrong JSON type, truncated, empty, random bytes, unknown field, local ValidatorData ok / failing Validate / wrong type, UnmarshalBinary panics} x every verifier outcome in {nil, bare/wrapped/joined soft, bare/wrapped hard, plain error, panic, never set (context expiry), set later returning nil / hard} x {metrics off, metrics on (first message of a fresh Subscriber)}; two-message histories: an earlier message in {valid, fails Validate, sparse, truncated, local failing Validate} then every payload x every verifier outcome x {header type decoding into a fresh value, decoding straight into its receiver}, same oracle; plus the same classes published through real gossipsub between mocknet hosts; distinct = (payload, verifier, verdict)")
 	run.Assume("the gossipsub pipeline part observes delivery/relay; scoring effects are taken from the validation result (Reject penalises, Ignore does not) as documented by go-libp2p-pubsub")
 
 	var rc c11Case
@@ -227,6 +264,21 @@ func TestC11(t *testing.T) {
 				run.Sample(c)
 			}
 			n++
+		}
+	}
+	// histories of two messages: an earlier message of every kind that gets decoded, then every payload, with
+	// every verifier outcome that lets the earlier message finish; both decoding styles of the header type
+	for _, before := range []string{"valid", "fails-validate", "sparse", "truncated", "validatordata-fails-validate"} {
+		for _, p := range c11Payloads {
+			for _, v := range c11Verifiers {
+				if v == "never-set" || v == "set-later-nil" || v == "set-later-hard" {
+					continue
+				}
+				for _, merge := range []bool{false, true} {
+					c11Exec(t, run, c11Case{Payload: p, Verifier: v, Before: before, Merge: merge})
+					run.AddEval(1)
+				}
+			}
 		}
 	}
 	c11Pipeline(t, run, nil)
